@@ -794,6 +794,7 @@ func newGen(r *common.Rng, wild bool) *gen {
 		g.palette = append(g.palette, all[r.Intn(len(all))])
 	}
 	g.palette = append(g.palette, []int{tU8, tI8, tI64}[r.Intn(3)])
+	g.keyTy[0] = tI64 // the empty key (rejected by the writing handlers)
 	for k := 1; k <= 4; k++ {
 		if r.Chance(30) {
 			g.keyTy[k] = 100
@@ -809,7 +810,12 @@ func (g *gen) sw() int64 {
 	}
 	return int64(1 + g.r.Intn(2))
 }
-func (g *gen) key() int64 { return int64(1 + g.r.Intn(4)) }
+func (g *gen) key() int64 {
+	if g.r.Intn(150) == 0 {
+		return 0 // the empty key
+	}
+	return int64(1 + g.r.Intn(4))
+}
 func (g *gen) keys(max int) []int64 {
 	n := 1 + g.r.Intn(max)
 	if g.r.Chance(4) {
